@@ -14,6 +14,7 @@ type genFacts struct {
 	fn        *ssa.Function
 	write     Site
 	data      *core.Term // data argument of WriteFile
+	dataInl   *core.Term // the same, read through split-off helpers
 	pathParam *ssa.Parameter
 	dryParam  *ssa.Parameter // param whose false edge dominates the write
 	prtParam  *ssa.Parameter // param guarding the stdout print of the formatted code
@@ -68,6 +69,7 @@ func (c *Ctx) generateFacts(rule string) *genFacts {
 	}
 	g := &genFacts{fn: ws[0].Fn, write: ws[0]}
 	g.data = c.O.Of(ws[0].Args()[1])
+	g.dataInl = c.Inline(g.data, 2) // the pipeline may be split off into a helper
 	if p, ok := ws[0].Args()[0].(*ssa.Parameter); ok {
 		g.pathParam = p
 	}
@@ -507,6 +509,10 @@ func C12(c *Ctx) {
 						if a == ssa.Value(p) && i < len(callee.Params) && pathOnlyAddressed(callee.Params[i], 0) {
 							ok = true
 						}
+						// … or a split-off part of the same function, in which the path goes where it may go here
+						if a == ssa.Value(p) && i < len(callee.Params) && onlyInto(callee.Params[i], u.allow) {
+							ok = true
+						}
 					}
 				}
 			}
@@ -610,7 +616,7 @@ func C12(c *Ctx) {
 	r.Rule("C12-4", "exactly one os.WriteFile in module code, outside any loop, writing the whole formatted content")
 	if g != nil {
 		r.Check("C12-4", FnKey(g.fn)+":single-write", c.Pos(g.write.Pos()), !inLoop(g.write.Instr.Block()), "the output write sits in a loop")
-		r.Check("C12-4", FnKey(g.fn)+":whole-content", c.Pos(g.write.Pos()), g.data.Kind == "extract" && g.data.Args[0].IsCallTo("go/format.Source"), "the written data must be the complete result of format.Source, got "+g.data.String())
+		r.Check("C12-4", FnKey(g.fn)+":whole-content", c.Pos(g.write.Pos()), g.dataInl.Kind == "extract" && g.dataInl.Args[0].IsCallTo("go/format.Source"), "the written data must be the complete result of format.Source, got "+g.dataInl.String())
 	}
 }
 
@@ -626,6 +632,29 @@ func (c *Ctx) paramReachesLoadPattern(fn *ssa.Function, pname string) bool {
 		}
 	}
 	return false
+}
+
+// onlyInto: every use of the parameter is the designated argument of one of the allowed callees.
+func onlyInto(p *ssa.Parameter, allow map[string]int) bool {
+	if p.Referrers() == nil {
+		return false
+	}
+	n := 0
+	for _, rf := range *p.Referrers() {
+		if _, ok := rf.(*ssa.DebugRef); ok {
+			continue
+		}
+		ci, isCall := rf.(ssa.CallInstruction)
+		if !isCall {
+			return false
+		}
+		idx, allowed := allow[core.CalleeName(ci.Common())]
+		if !allowed || idx >= len(ci.Common().Args) || ci.Common().Args[idx] != ssa.Value(p) {
+			return false
+		}
+		n++
+	}
+	return n > 0
 }
 
 // pathOnlyAddressed: the path value flows only into os.Stat, filepath.Abs / EvalSymlinks / Dir / Base / Join (whose results are
